@@ -42,20 +42,22 @@ Conforms(s) == \A i \in DOMAIN Scens[s].ok :
                  /\ WellNested(Scens[s].ok[i]) /\ ConformsFrom(Scens[s].ok[i], 1, <<Scens[s].base>>)
                  /\ WellNested(Scens[s].fail[i]) /\ ConformsFrom(Scens[s].fail[i], 1, <<Scens[s].base>>)
 
+\* toggling the handler is free: a history has <= MaxOps operations plus at most one toggle anywhere before the last
+NOps == Cardinality({n \in DOMAIN hist : hist[n].op # "toggle"})
 Init == sc \in DOMAIN Scens /\ stack = <<Scens[sc].base>> /\ mode = Scens[sc].mode0 /\ hist = <<>>
 
 Rec(op, i, k, r) == [op |-> op, i |-> i, k |-> k, out |-> r.out, status |-> r.status, restored |-> r.stack = <<Base>>]
 RunOp(op, i, k) ==
   LET r0 == RunFrom(Script(i), Fresh(stack), k)
       r  == CloseIt(r0) IN
-  /\ Len(hist) < MaxOps
+  /\ NOps < MaxOps
   /\ stack' = r.stack
   /\ hist' = Append(hist, Rec(op, i, k, r))
   /\ UNCHANGED <<sc, mode>>
 Exhaust(i)      == RunOp("exhaust", i, -1)
 First(i)        == RunOp("first", i, 1)
 TakeClose(i, k) == RunOp("take", i, k)
-ResolveDirect(j) == /\ Len(hist) < MaxOps
+ResolveDirect(j) == /\ NOps < MaxOps
                     /\ hist' = Append(hist, [op |-> "resolve", i |-> j, k |-> 0,
                                              out |-> <<[k |-> "res", v |-> ResolveText(Top(stack), Scens[sc].refs[j])]>>,
                                              status |-> "done", restored |-> stack = <<Base>>])
@@ -63,12 +65,12 @@ ResolveDirect(j) == /\ Len(hist) < MaxOps
 \* the public context managers: `with resolver.in_scope(scope): resolver.resolve(ref)` and
 \* `with resolver.resolving(ref): resolver.resolve("#")` -- the body may raise; the scope is popped in a finally
 ScopeArg == <<115, 117, 98, 47, 100, 105, 114, 47>>        \* "sub/dir/"
-InScopeOp(j) == /\ Len(hist) < MaxOps
+InScopeOp(j) == /\ NOps < MaxOps
                 /\ hist' = Append(hist, [op |-> "inscope", i |-> j, k |-> 0,
                                          out |-> <<[k |-> "res", v |-> ResolveText(ResolveText(Top(stack), ScopeArg), Scens[sc].refs[j])]>>,
                                          status |-> "done", restored |-> stack = <<Base>>])
                 /\ UNCHANGED <<sc, stack, mode>>
-ResolvingOp(j) == /\ Len(hist) < MaxOps
+ResolvingOp(j) == /\ NOps < MaxOps
                   /\ LET u == ResolveText(Top(stack), Scens[sc].refs[j])
                          \* whether the reference resolves at all (measured on a fresh resolver, per handler mode): if not,
                          \* resolving() raises before the body runs
@@ -78,7 +80,7 @@ ResolvingOp(j) == /\ Len(hist) < MaxOps
                                                    ELSE <<[k |-> "res", v |-> u]>>,
                                            status |-> "done", restored |-> stack = <<Base>>])
                   /\ UNCHANGED <<sc, stack, mode>>
-Toggle == /\ mode = "fail" /\ Len(hist) < MaxOps /\ mode' = "ok"
+Toggle == /\ mode = "fail" /\ NOps < MaxOps /\ mode' = "ok"
           /\ hist' = Append(hist, [op |-> "toggle", i |-> 0, k |-> 0, out |-> <<>>, status |-> "done", restored |-> stack = <<Base>>])
           /\ UNCHANGED <<sc, stack>>
 Next == \/ \E i \in 1 .. NInst : Exhaust(i) \/ First(i) \/ TakeClose(i, 2)
@@ -92,5 +94,5 @@ ScopeRestored == stack = <<Base>>
 HistoryFree == [][ (Len(hist') = Len(hist) + 1 /\ hist'[Len(hist')].op \in {"exhaust", "first", "take"}) =>
                      LET h == hist'[Len(hist')] IN
                      h.out = CloseIt(RunFrom(Script(h.i), Fresh(<<Base>>), h.k)).out /\ h.restored ]_vars
-ExportInv == Len(hist) = MaxOps => PrintT(ToJson([sc |-> sc, h |-> hist]))
+ExportInv == NOps = MaxOps => PrintT(ToJson([sc |-> sc, h |-> hist]))
 =============================================================================
